@@ -561,7 +561,16 @@ func (x *Exec) dynamicCall(st *State, fr *Frame, call *ssa.Call, fv Val, args []
 		ats = append(ats, fterm)
 		asorts = append(asorts, SInt)
 		for i, a := range args {
-			t := x.term(st, a, sig.Params().At(i).Type())
+			pt := sig.Params().At(i).Type()
+			var t *Term
+			if pp, ok := types.Unalias(pt).Underlying().(*types.Pointer); ok {
+				// a pure function of a pointer argument is a function of what it points to (the address of a local
+				// copy is the same in every iteration and says nothing)
+				t = x.load(st, x.loc(st, a, pt))
+				_ = pp
+			} else {
+				t = x.term(st, a, pt)
+			}
 			ats = append(ats, t)
 			asorts = append(asorts, t.Sort)
 		}
